@@ -1,15 +1,15 @@
 import Toq.Driver.Util
 import Toq.Model.Perms
+import Toq.Model.PermsArgs
 /-! Driver front end for C01: argument normalisation of `permute_systems`, `swap`,
 `permutation_operator`, `swap_operator`, then the mirror model. -/
 open Lean Toq.Perms
 
 namespace Toq.Driver.C01
 
-/-- exact integer `k`-th root if it exists (the repaired `dim=None` branch rounds the float root;
-    a non-perfect power then fails the size check) -/
-def iroot (N k : Nat) : Option Nat :=
-  (List.range (N + 2)).find? (fun r => r ^ k == N)
+-- `iroot` (exact integer root for the omitted-`dim` form) and `swapPermList` (`swap.py`'s permutation
+-- list) live in `Toq/Model/PermsArgs.lean`; `Toq.C01.dim_omitted_root` / `swap_eq_transposition` are
+-- the theorems about them.
 
 inductive DimArg where
   | none
@@ -102,7 +102,7 @@ def hSwap : Handler := fun j => do
   match sys with
   | [s1, s2] =>
     if s1 < 1 || s2 < 1 || s1 > n || s2 > n then return reject "InvalidSys"
-    let perm := listOfFn n (swapPerm (s1 - 1) (s2 - 1))
+    let perm := swapPermList n (s1 - 1) (s2 - 1)   -- = listOfFn n (swapPerm …) (`swap_eq_transposition`)
     permuteSystems shape data perm dim' rowOnly false
   | _ => return reject "InvalidSys"
 
